@@ -65,24 +65,28 @@ def main():
     meta['demo_without_change'] = {'exit': rc0, 'tail': out0[-300:]}
     ok = '87 passed' in meta['tests_with_change'] and rc1 != 0 and rc0 == 0
     meta['confirmed'] = ok
-    # run our checks against the change
-    rc, out = sh('git -C /repo status --short')
-    if out.strip():
-        print('REFUSING: /repo has uncommitted changes:\n' + out)
-        return 2
-    rc, out = sh('git -C /repo apply %s' % patch)
-    if rc != 0:
-        print('patch does not apply to /repo: ' + out)
-        meta['applies'] = False
-    else:
-        meta['applies'] = True
-        results = {}
-        try:
+    # run our checks against the change - on a scratch copy of /repo's
+    # working tree (VERIF_REPO), so that /repo itself is never modified while
+    # background soaks import from it
+    import tempfile
+    scratch = tempfile.mkdtemp(prefix='dst-seeded-')
+    try:
+        shutil.copytree('/repo/minecraft', os.path.join(scratch, 'minecraft'),
+                        ignore=shutil.ignore_patterns('__pycache__'))
+        r = subprocess.run(['patch', '-p1', '-s', '-i', patch], cwd=scratch,
+                           capture_output=True, text=True)
+        if r.returncode != 0:
+            print('patch does not apply: ' + r.stdout + r.stderr)
+            meta['applies'] = False
+        else:
+            meta['applies'] = True
+            results = {}
             for p in props:
                 cmd = '%s/check %s --no-evidence' % (VERIF, p)
                 if runs:
                     cmd += ' --runs %s' % runs
-                env = dict(os.environ, VERIF_REPLAY_DIR='/tmp/seed/replays')
+                env = dict(os.environ, VERIF_REPO=scratch,
+                           VERIF_REPLAY_DIR=os.path.join(scratch, 'replays'))
                 t = time.time()
                 rc, o = sh(cmd, cwd=VERIF, env=env)
                 sigs = sorted(set(
@@ -92,9 +96,9 @@ def main():
                 results[p] = {'exit': rc, 'signatures': sigs,
                               's': round(time.time() - t, 1),
                               'tail': o.strip().splitlines()[-1][:300]}
-        finally:
-            sh('git -C /repo checkout -- .')
-        meta['checks'] = results
+            meta['checks'] = results
+    finally:
+        shutil.rmtree(scratch, ignore_errors=True)
     d = os.path.join(VERIF, 'seeded', sid)
     os.makedirs(d, exist_ok=True)
     shutil.copy(patch, os.path.join(d, 'patch.diff'))
